@@ -16,6 +16,8 @@ def run(rep, kf, tier, seed):
         rep.merge(r)
     import contracts.model_props as mp
     mp.discharge(rep, kf, "C15", tier, seed)
+    from props.common import run_bounded
+    run_bounded(rep, kf, "C15", ["model_properties", "schema_order"], tier)
     rep.trusted.extend(["CPython semantics of the supported subset as encoded in pyvc.symexec",
                         "convert_value of the result kind is used by summary (uninterpreted conversion; its own contract is C13)",
                         "class invariants assumed of the inputs: a stored default is the conversion of its raw value "
